@@ -11,6 +11,7 @@ CONSTANTS
   OrphanMetaKept = FALSE
   CorruptIgnoresMeta = FALSE
   MayRelease = FALSE
+  DropBeforeDrain = FALSE
   GraceTimer = "oracle"
 INVARIANTS CSafe
 PROPERTIES ClientsAttach
